@@ -51,7 +51,11 @@ Step(ln) ==
          [] o.name = "readd"     -> AddLoose(h, ks[1])     \* Damage(k) . AddLoose(h, k): the damaged copy is replaced
          [] o.name = "addpack"   -> AddToPack(h, ks, o.z, o.noholes, o.twice)
          [] o.name = "pack"      -> PackAllLoose(h, o.mode, o.perpack, NewRowKeys(ln.obs))
-         [] o.name = "clean"     -> Clean(h)
+         [] o.name = "clean"     -> IF o.raised = "" THEN Clean(h)
+                                    ELSE /\ last' = Rec("clean", h, <<>>, {}, o.raised)     \* refused before touching anything
+                                         /\ (IF o.vacuum THEN Unpin(h) ELSE KeepSession)
+                                         /\ UNCHANGED <<loose, pack, pex, idx, cur, map, repacked>>
+         [] o.name = "stray"     -> /\ last' = Rec("stray", h, <<>>, {}, "") /\ UNCHANGED core
          [] o.name = "repack"    -> Repack(h, o.mode)
          [] o.name = "delete"    -> Delete(h, S)
          [] o.name = "loosen"    -> Loosen(h, ks[1])
